@@ -534,4 +534,9 @@ def rules(model: Model, tier: str) -> List[RuleResult]:
     PN = RuleResult(PROP, "C06-P", "composed operators forward _getparamnames of their operands with the operand's prefix", min_instances=4)
     _pn(model, PN)
 
-    return [R1, R2, R3, R5, R6, Sy, Mr, O, G, K, D, *_hy, Hh, ADJ, *_sub, PN]
+    # the adjoint systems of this backward are solved by the iterative methods; for a non-Hermitian / not positive definite operator their
+    # set-up falls back to the normal equations, which must be A^H A x = A^H b (shared with C01-N)
+    from ..rules import c01_layout as _c01l
+    LSN = RuleResult(PROP, "LS-N", "inner linear solve: the normal-equation fallback applies one adjoint map to operator and right-hand side (A^H A x = A^H b)", min_instances=3)
+    _c01l.check_normal_equations(model, LSN)
+    return [R1, R2, R3, R5, R6, Sy, Mr, O, G, K, D, *_hy, Hh, ADJ, *_sub, PN, LSN]
